@@ -270,16 +270,20 @@ void gen_tree(Rng &rng, const TreeOpts &o, std::vector<Member> &out) {
 	std::set<std::string> used;
 	std::function<void(const std::string &, int, bool)> fill = [&](const std::string &dir, int depth, bool top) {
 		int kids = top ? budget : 1 + (int) rng.below(4);
+		std::vector<std::string> siblings;
 		for (int k = 0; k < kids && budget > 0; ++k) {
 			int lvl = level_all >= 0 ? level_all : (int) rng.below(4);
 			std::string nm;
 			for (int tries = 0; tries < 20; ++tries) {
 				nm = gen_name(rng, rng.chance(1, 10) ? 40 : 9);
+				// siblings whose names are prefixes of each other ("a" and "ab") exercise prefix tests on paths
+				if (!siblings.empty() && rng.chance(1, 4)) nm = siblings[rng.below(siblings.size())] + gen_name(rng, 2);
 				if (!used.count(dir + nm) && (dir + nm).size() < 180) break;
 				nm.clear();
 			}
 			if (nm.empty()) continue;
 			used.insert(dir + nm);
+			siblings.push_back(nm);
 			int what = (int) rng.below(10);
 			if (o.dirs && depth < o.max_depth && what < 3) {
 				--budget;
